@@ -368,9 +368,9 @@ func monTime(c *child.Ctx, replay json.RawMessage, anyStart bool) {
 		salt = 17
 	}
 	r := ref.NewRand(c.Seed*373587883 + uint64(c.Batch)*393342739 + salt)
-	n := c.Share(c.Pick(2000, 100000))
+	n := c.Share(c.Pick(20000, 400000))
 	if anyStart {
-		n = c.Share(c.Pick(4000, 200000))
+		n = c.Share(c.Pick(40000, 800000))
 	}
 	for i := 0; i < n; i++ {
 		k, nontriv := genHistory(r, anyStart)
